@@ -162,8 +162,13 @@ def setup(mk, inst, stub_restart_block=True):
     mod = load_controller_MPI()
     log, trace = [], []
     world = GhostComm(inst['rank'], inst.get('world_size', inst['size']), mk, log, name='world', split_to=inst.get('split_to'))
-    d = dict(problem_class=MPIProblem, problem_params=dict(kind='full', name='P0'), sweeper_class=generic_implicit, sweeper_params=dict(num_nodes=2, quad_type='RADAU-RIGHT'),
-             level_params=dict(dt=1.0, restol=1e-10), step_params=dict(maxiter=5))
+    nl = inst.get('nlevels', 1)
+    d = dict(problem_class=MPIProblem, problem_params=dict(kind='full', name='P0' if nl == 1 else [f'P{l}' for l in range(nl)]), sweeper_class=generic_implicit,
+             sweeper_params=dict(num_nodes=2 if nl == 1 else [2] * nl, quad_type='RADAU-RIGHT'), level_params=dict(dt=1.0, restol=1e-10), step_params=dict(maxiter=5))
+    if nl > 1:
+        d['space_transfer_class'] = ctrl.LinearSpaceTransfer
+        if inst.get('nsweeps'):
+            d['level_params']['nsweeps'] = list(inst['nsweeps'])
     with ghost_mpi4py():
         c = mod.controller_MPI(controller_params=dict(logger_level=40, hook_class=[ctrl.make_rec_hook(trace)], dump_setup=False), description=d, comm=world)
     c._Controller__hooks = [h for h in c.hooks if type(h).__name__ == 'RecHook']
